@@ -103,6 +103,7 @@ type prog struct {
 	held     [][]int
 	heldCopy [][]int
 	heldStep []int
+	pendingArgmut string
 	curStep  int
 	inputs [][]interface{} // initial contents of model buffer b (in creation order of `new`)
 	nbuf   int
@@ -354,6 +355,10 @@ func (p *prog) step(idx int, toks []string) *rec {
 	if m := p.checkHeld(); m != "" {
 		r.fields["argmut"] = strings.ReplaceAll(m, " ", ",")
 	}
+	if p.pendingArgmut != "" {
+		r.fields["argmut"] = p.pendingArgmut
+		p.pendingArgmut = ""
+	}
 	return r
 }
 
@@ -412,7 +417,23 @@ func (p *prog) stepInner(idx int, toks []string) *rec {
 			return simple("skip")
 		}
 		return p.newOp(dt, func() (*tensor.Dense, error) {
-			v, err := t.Slice(sls...)
+			// the slice list is handed over as the prefix of a longer caller-owned list (spare capacity behind it): the
+			// library must not touch what lies behind the prefix, nor the prefix itself (C19)
+			full := make([]tensor.Slice, len(sls)+3)
+			copy(full, sls)
+			for i := len(sls); i < len(full); i++ {
+				full[i] = vslice{7, 9, 2}
+			}
+			v, err := t.Slice(full[:len(sls)]...)
+			for i := range full {
+				var want tensor.Slice = vslice{7, 9, 2}
+				if i < len(sls) {
+					want = sls[i]
+				}
+				if full[i] != want {
+					p.pendingArgmut = fmt.Sprintf("slicelist[%d]", i)
+				}
+			}
 			if err != nil {
 				return nil, err
 			}
